@@ -1077,6 +1077,19 @@ fn entry_act<K: KeyT, V: ValT>(
                         model.swap_remove(p);
                     }
                 }
+                // the returned entry must be a handle to this very entry: read and write through it
+                match r {
+                    Entry::Occupied(mut o2) => {
+                        chk!(c, o2.key().id() == id && o2.get().tok() == t2, "replace_entry_with({id}): the returned entry shows ({}, {}), expected the new value {t2}", o2.key().id(), o2.get().tok());
+                        o2.get_mut().set_tok(t2 ^ 0x0800_0000);
+                        if let Some(p) = p {
+                            model[p].2 = t2 ^ 0x0800_0000;
+                        }
+                    }
+                    Entry::Vacant(v2) => {
+                        chk!(c, v2.key().id() == id, "replace_entry_with({id}): the returned vacant entry is for another key");
+                    }
+                }
             }
         }
         EAct::AndReplaceSome | EAct::AndReplaceNone => {
@@ -1096,6 +1109,13 @@ fn entry_act<K: KeyT, V: ValT>(
                     model[p].2 = t2;
                 } else {
                     model.swap_remove(p);
+                }
+            }
+            if let Entry::Occupied(mut o2) = r {
+                chk!(c, o2.key().id() == id && o2.get().tok() == t2, "and_replace_entry_with({id}): the returned entry shows ({}, {}), expected the new value {t2}", o2.key().id(), o2.get().tok());
+                o2.get_mut().set_tok(t2 ^ 0x0800_0000);
+                if let Some(p) = p {
+                    model[p].2 = t2 ^ 0x0800_0000;
                 }
             }
         }
